@@ -13,6 +13,7 @@ import math
 import numpy as np
 import pandas as pd
 
+from hypothesis import strategies as st
 from vlib.runner import Part, Result
 from vlib import xylab
 from tradingenv.contracts import Rate
@@ -23,7 +24,7 @@ RULE = ("xylab.cases: calendar in NYSE/LSE/SSE/24-7, origin placed so that a clo
         "(bounded multiplicative moves, NaN cells and NaN runs), calendar-daily or exchange-shaped (no rows on closed days, "
         "optionally single rows and a block of rows removed); X 1-4 features on the same / other range / sparser index with "
         "NaNs, scale, offset and a regime change; rate series same/sparse/shifted or None; window 1-30 (biased <= 6), stride "
-        "None or 1..window, transformer None/z-score/yeo-johnson(10%), transformer_end, clip in {0.125..5}, spread in "
+        "None or 1..window, transformer None/z-score/yeo-johnson(10%) or (one z-score case in three) a StandardScaler the caller fitted beforehand on the first k>=8 feature rows, transformer_end, clip in {0.125..5}, spread in "
         "{0, 0.0002, 0.01}, start/end bounds, two folds with the test fold starting preferably right after a gap of rows, "
         "episode_length, steps_delay 0/1, small in-bounds target weights. "
         "Non-trivial = (window >= 2 and an episode starts right after a gap of >= 3 calendar days between rows of env.X) "
@@ -129,9 +130,11 @@ class Oracle:
         if case["transformer"] is None:
             want = np.clip(R, -c, c)
             ok = miss | (E == want)
-        elif case["transformer"] == "z-score":
+        elif case["transformer"] == "z-score" or isinstance(case["transformer"], list):
             te = end_eff if case["transformer_end"] is None else xylab.day(case, case["transformer_end"])
             fit = X_in.loc[:te].values
+            if isinstance(case["transformer"], list):
+                fit = X_in.iloc[:case["transformer"][1]].values        # the caller's own fit sample
             mu = np.nanmean(fit, axis=0)
             sd = np.nanstd(fit, axis=0)
             sd = np.where(sd < 1e-300, 1.0, sd)
@@ -296,7 +299,7 @@ def run_xy(case):
     tables = xylab.tables_from_case(case)
     env = xylab.build_env(case, tables)
     orc = Oracle(case, tables, env, res)
-    res.tag("cal=" + case["cal"], "shape=" + case["shape"], "transformer=%s" % case["transformer"],
+    res.tag("cal=" + case["cal"], "shape=" + case["shape"], "transformer=%s" % ("caller-fitted" if isinstance(case["transformer"], list) else case["transformer"]),
             bucket(case["window"]), "x=" + case["x_mode"],
             "stride=None" if case["stride"] is None else "stride=1" if case["stride"] == 1 else "stride>=2",
             "spread=%g" % case["spread"], "rate=%s" % ("none" if case["rate_days"] is None else "given"))
@@ -347,7 +350,19 @@ def run_xy(case):
     return res
 
 
-PARTS = [Part("xy", strategy=lambda tier: xylab.cases(tier), run=run_xy, quick=1440, thorough=24000)]
+@st.composite
+def cases18(draw, tier="quick"):
+    c = draw(xylab.cases(tier))
+    if c["transformer"] == "z-score" and draw(st.sampled_from([False, False, True])):
+        # the same scaler, but fitted by the caller beforehand on a shorter sample of its own choosing
+        k = draw(st.integers(8, max(8, len(c["x_days"]))))
+        X = xylab.tables_from_case(c)["X"].iloc[:k]
+        if len(X) >= 8 and bool((X.notna().sum() >= 2).all()):
+            c["transformer"] = ["fitted", k]
+    return c
+
+
+PARTS = [Part("xy", strategy=lambda tier: cases18(tier), run=run_xy, quick=1440, thorough=24000)]
 
 
 # ------------------------------------------------------------------------------------------------
